@@ -1831,6 +1831,8 @@ def ShapeOK (f : Facts) : Op → Prop
   | .syncFsync _ => f.syncSerial = true
   | .syncClear _ => f.syncSerial = true
   | .vmResizeStale _ _ _ _ => f.resizeStatLocked = true
+  | .syncFsyncFail _ => f.syncSerial = true
+  | .syncPartial _ _ => f.syncKeepsRest = true
   | _ => True
 
 theorem syncBegin_data {s : State} (h : DataInv s) : DataInv (syncBegin s).1 := by
@@ -1911,6 +1913,75 @@ theorem syncFsync_data {f : Facts} (hf : f.syncSerial = true) {s : State} (h : D
       · exact Or.inr (List.mem_filter.mpr ⟨hx, by simpa using hne⟩)
   · exact h
 
+/-- repaired shape: the fsync of the volume in flight failed; its flag is set again -/
+theorem syncFsyncFail_data {f : Facts} (hf : f.syncSerial = true) {s : State} (h : DataInv s) (v : Nat) :
+    DataInv (syncFsyncFail f s v).1 := by
+  simp only [syncFsyncFail, hf, if_true]; split
+  · exact h
+  split
+  · refine ⟨h.slotData, h.slotDur, h.refSafe, h.freshSafe, h.freshRec, h.cacheGood, h.locStored, ?_, h.pendW⟩
+    intro v' i sl h1 h2
+    rcases h.dirtyChanged v' i sl h1 h2 with hx | hx
+    · exact Or.inl (mem_addNew hx)
+    · by_cases e : v' = v
+      · exact Or.inl (e ▸ self_mem_addNew _ _)
+      · exact Or.inr (List.mem_filter.mpr ⟨hx, by simpa using e⟩)
+  · exact h
+
+/-- an uncontended Sync, some fsyncs done, possibly one failed: the volumes not fsynced keep their flag -/
+theorem syncPartial_data {f : Facts} (hf : f.syncKeepsRest = true) {s : State} (h : DataInv s) (oks : List Nat) (fail : Option Nat) :
+    DataInv (syncPartial f s oks fail).1 := by
+  by_cases hidle : (!s.inflight.isEmpty || s.syncer.isSome) = true
+  · simp only [syncPartial, hidle, if_true]; exact h
+  have hin : s.inflight = [] := by
+    cases hx : s.inflight with
+    | nil => rfl
+    | cons a b => simp [hx] at hidle
+  suffices key : DataInv { s with vols := oks.foldl (fun vs w => syncVol w vs) s.vols
+                                  changed := s.changed.filter (fun v => !oks.contains v)
+                                  unsynced := s.unsynced.filter (hasDirty (oks.foldl (fun vs w => syncVol w vs) s.vols)) } by
+    simp only [syncPartial, hf, if_true, hidle]
+    repeat' split
+    all_goals first
+      | exact h
+      | exact key
+  have hsk := foldSync_skel oks s.vols
+  have hslot : ∀ v i sl', slotAt (oks.foldl (fun vs w => syncVol w vs) s.vols) v i = some sl' →
+      ∃ sl, slotAt s.vols v i = some sl ∧ sl'.sec = sl.sec ∧ sl'.content = sl.content ∧
+        (sl'.durable = false → sl.durable = false ∧ v ∉ oks) := by
+    intro v i sl' h1
+    rw [slotAt_foldSync] at h1
+    split at h1
+    · cases hs : slotAt s.vols v i with
+      | none => rw [hs] at h1; cases h1
+      | some sl => rw [hs] at h1; simp at h1; subst h1; exact ⟨sl, rfl, rfl, rfl, fun x => by simp at x⟩
+    · rename_i hn
+      exact ⟨sl', h1, rfl, rfl, fun x => ⟨x, hn⟩⟩
+  refine ⟨?_, ?_, ?_, ?_, h.freshRec, h.cacheGood, ?_, ?_, h.pendW⟩
+  · intro v i sl' r h1 h2
+    obtain ⟨sl, h3, e1, e2, _⟩ := hslot v i sl' h1
+    rw [e2]; exact h.slotData v i sl r h3 (e1 ▸ h2)
+  · intro v i sl' r h1 h2 hd
+    obtain ⟨sl, h3, e1, _, e4⟩ := hslot v i sl' h1
+    rcases h.slotDur v i sl r h3 (e1 ▸ h2) (e4 hd).1 with hx | hx
+    · exact Or.inl (List.mem_filter.mpr ⟨hx, hasDirty_of_slot h1 h2 hd⟩)
+    · exact Or.inr hx
+  · intro r hr
+    rcases h.refSafe r hr with hx | ⟨h1, h2, h3⟩
+    · exact Or.inl hx
+    · exact Or.inr ⟨by rw [located_of_skel hsk]; exact h1, fun hm => h2 (List.mem_filter.mp hm).1, h3⟩
+  · intro r hr
+    obtain ⟨h1, h3⟩ := h.freshSafe r hr
+    exact ⟨by rw [located_of_skel hsk]; exact h1, h3⟩
+  · intro r hr
+    rw [located_of_skel hsk] at hr; exact h.locStored r hr
+  · intro v i sl' h1 hd
+    obtain ⟨sl, h3, _, _, e4⟩ := hslot v i sl' h1
+    obtain ⟨hd', hno⟩ := e4 hd
+    rcases h.dirtyChanged v i sl h3 hd' with hx | hx
+    · exact Or.inl (List.mem_filter.mpr ⟨hx, by simpa using hno⟩)
+    · rw [hin] at hx; cases hx
+
 /-- with the size read under the status guard a resize never works from a stale total -/
 theorem vmResizeStale_fixed {f : Facts} (hf : f.resizeStatLocked = true) (s : State) (cur v n : Nat) (moves : List Move) :
     vmResizeStale f s cur v n moves = vmResize s v n moves := by
@@ -1961,6 +2032,8 @@ theorem step_inv (f : Facts) {s : State} (h : Inv s) (op : Op) (hs : Safe s op) 
   | syncFsync v => exact syncFsync_data hsh hd v
   | syncClear v => exact syncClear_data hsh hd v
   | syncEnd => exact syncEnd_data hd
+  | syncFsyncFail v => exact syncFsyncFail_data hsh hd v
+  | syncPartial oks fail => exact syncPartial_data hsh hd oks fail
   | vmResizeStale cur v n moves =>
     show DataInv (vmResizeStale f s cur v n moves).1
     rw [vmResizeStale_fixed hsh]
@@ -2397,6 +2470,37 @@ theorem C02_resize_stale_witness :
 migrate slot 4 first; with no migration oracle given the model stops there): nothing is truncated -/
 theorem C02_resize_stale_fixed :
     readContent (run Facts.fixed2 (init 0) resizeStaleOps) 5 = some (.dataOf 5) := by decide
+
+
+/-! ## a failing fsync inside Sync -/
+
+/-- a Sync that took all dirty flags up front and, when an fsync fails, re-flags only the failing volume -/
+def Facts.syncDropsRest : Facts := { Facts.fixed2 with syncKeepsRest := false }
+
+/-- two dirty volumes; the first fsync attempted (volume 1) fails, the RPC fails; the renter retries, both
+sectors are already stored (no new flag); the next Sync fsyncs volume 1 only and returns nil; the references
+are committed; power loss -/
+def syncFailOps (retrySynced : List Nat) (lost : List (Nat × Nat)) : List Op :=
+  [.vmAddVolume 1 1, .vmAddVolume 2 1, .addC1 1 40,
+   .newBuf (.dataOf 1), .reserve 0 1 0 (some (1, 0)), .finish 0 true,
+   .newBuf (.dataOf 2), .reserve 0 2 1 (some (2, 0)), .finish 0 true,
+   .syncPartial [] (some 1),
+   .newBuf (.dataOf 1), .reserve 0 1 2 none, .newBuf (.dataOf 2), .reserve 0 2 3 none,
+   .syncPartial retrySynced none,
+   .revise1 1 [.append 1, .append 2], .crash lost]
+
+theorem C02_sync_fail_drops_flags_witness :
+    referenced (run Facts.syncDropsRest (init 0) (syncFailOps [1] [(2, 0)])) 2 = true ∧
+      (run Facts.syncDropsRest (init 0) (syncFailOps [1] [(2, 0)])).lostNow = [] ∧
+      readContent (run Facts.syncDropsRest (init 0) (syncFailOps [1] [(2, 0)])) 2 = some .garbage := by decide
+
+/-- the code as it is: volume 2 keeps its flag, the retry's Sync has to fsync it too (a Sync that skipped it is
+not a behaviour of the model: `badOracle`), and then nothing unsynced is left -/
+theorem C02_sync_fail_keeps_flags :
+    (step Facts.fixed2 (run Facts.fixed2 (init 0) ((syncFailOps [1] []).take 14)) (.syncPartial [1] none)).2
+        = .badOracle "Sync skipped a dirty volume" ∧
+      readContent (run Facts.fixed2 (init 0) (syncFailOps [1, 2] [])) 2 = some (.dataOf 2) ∧
+      nonDurable (run Facts.fixed2 (init 0) ((syncFailOps [1, 2] []).take 15)).vols 2 0 = false := by decide
 
 
 end Hostd.Props.C02
